@@ -531,13 +531,16 @@ def showKeyAttr (a : CorrAttrs.Attr) : String :=
 
 def handle (args : List String) : Option String :=
   match args with
-  | ["key", _cfg, attrs, to, frm, _typ] => do
+  | ["key", cfg, attrs, to, frm, _typ] => do
     let as ← mapM? parseKeyAttr (splitList attrs)
     let to ← parseKeyTo to
     let frm ← parseKeyFrom frm
-    let p := CorrKey.send {} 7 8 as
+    -- kind R: a message sent through the delivery-receipt helper
+    let p := if cfg.startsWith "R" then CorrKey.rcptSend 7 8 as else CorrKey.send {} 7 8 as
     let ids := (p.2.filter (fun a => a.loc = .id)).map showKeyAttr
-    let out := CorrKey.roundTrip {} 7 8 as to frm
+    let out : CorrKey.Outcome := match CorrKey.wireId p.2 with
+      | some w => if CorrKey.matchEntry {} ⟨p.1, to⟩ ⟨w, true, true, frm⟩ then .reply else .lost
+      | none => .lost
     let (o, h) := match out with | .reply => ("reply", "0") | .lost => ("lost", "1")
     pure s!"ids={joinList ids} out={o} h={h} probe=live"
   | ["ibbw", cfg, ops] => do
